@@ -76,6 +76,7 @@ fn generate(seed: u64, tier: Tier) -> Scenario {
         max_file: 4096,
         big_twins: false,
         raw_names: false,
+        unnamed_owners: false,
     };
     let mut g = Gen::new(r.derive("gen"));
     let root_meta = g.root_meta(&cfg);
